@@ -137,10 +137,11 @@ func ReducedSeeds() []string {
 
 // ClassBytes holds one representative per transition class of the machines plus both
 // neighbours of every class boundary (the bytes just outside JSON whitespace, digits, hex
-// letters, structural characters): 64 bytes. 0x0b and 0x0e were added after the mechanical
+// letters, structural characters) and the apostrophe (one machine accepts a non-standard
+// backslash-apostrophe escape): 65 bytes. 0x0b and 0x0e were added after the mechanical
 // mutation survey found a '<= 10' -> '<= 11' whitespace mutant that only 0x0b exposes.
 var ClassBytes = []byte{
-	0x00, 0x01, 0x08, 0x09, 0x0a, 0x0b, 0x0c, 0x0d, 0x0e, 0x1f, 0x20, '!', '"', '#', '*', '+',
+	0x00, 0x01, 0x08, 0x09, 0x0a, 0x0b, 0x0c, 0x0d, 0x0e, 0x1f, 0x20, '!', '"', '#', '\'', '*', '+',
 	',', '-', '.', '/', '0', '1', '5', '9', ':', ';', '@', 'A', 'E', 'F', 'G', 'N',
 	'T', 'Z', '[', '\\', ']', '^', '`', 'a', 'b', 'e', 'f', 'g', 'l', 'n', 'r', 's',
 	't', 'u', 'x', 'z', '{', '|', '}', '~', 0x7f, 0x80, 0xbf, 0xc2, 0xe0, 0xef, 0xf0, 0xff,
